@@ -230,13 +230,22 @@ def rule_range_form(rep, prog):
         ln = ('param', 3, b.local_name(3))
         first_ok = f0 == start
         last_ok = False
+        via_checked_sub = False
         if l0 is not None and l0[0] == 'call' and re.search(r"num::(saturating_add|checked_add)$", canon(l0[1])):
             x, y = deep_strip(l0[2][0]), deep_strip(l0[2][1])
             if y[0] == 'field' and y[2] == '0':
                 y = y[1]
             last_ok = x == start and y[0] == 'bin' and y[1].startswith("Sub") and deep_strip(y[2]) == ln and deep_strip(y[3]) == ('const', 1)
+            # `len - 1` written as the Some payload of len.checked_sub(1) (the None arm returns): the same value, and its existence
+            # is the `len != 0` guard
+            from .. import checks
+            py = checks.producer(y) if y[0] == 'ok' else None
+            sub_ok = py is not None and py[0] == 'call' and canon(py[1]).endswith("num::checked_sub") and deep_strip(py[2][0]) == ln and deep_strip(py[2][1]) == ('const', 1)
+            if x == start and sub_ok:
+                last_ok = True
+                via_checked_sub = True
         facts = b.facts_at(rpos)
-        nz = implies_nonzero(facts, ln)
+        nz = implies_nonzero(facts, ln) or via_checked_sub
         ok = first_ok and last_ok and nz
         detail = f"range = ({tstr(first)}) ..= ({tstr(last)}); first_ok={first_ok} last_ok={last_ok} len!=0 dominates={nz}"
     rep("R9.3.range_form", b.key, ok, b.where(),
